@@ -37,6 +37,14 @@ COMPONENTS_BY_ENGINE = {
         "stub_or_replica": ["the leaders are the plan: requests are built from generated leader logs and pushed into the follower's event channel "
                             "as stream_append_entries does", "SimStorageEngine, MemSm, vendored tokio, libc seams"],
     },
+    "snapsim": {
+        "real": ["d-engine-core DefaultStateMachineHandler: create_snapshot, compress, load_snapshot_data (sender side); "
+                 "apply_snapshot_stream_from_leader, process_snapshot_stream, SnapshotAssembler, finalize, decompress (receiver side), "
+                 "on real directories in tmpfs"],
+        "stub_or_replica": ["MemSm (ideal in-memory state machine with a snapshot.bin file format of its own) under the ObservedSm wrapper",
+                            "the transport between the two handlers is an mpsc channel carrying the real SnapshotChunk messages (what "
+                            "InstallSnapshotChunk hands to the follower)", "vendored tokio (inline blocking), libc seams"],
+    },
     "scansim": {
         "real": ["d-engine-server FileStateMachine and RocksDBStateMachine on a real directory: apply_chunk and scan_prefix"],
         "stub_or_replica": ["the second thread is replaced by guarded schedule points (cfg d_engine_verif) inside apply_chunk and scan_prefix at which "
@@ -65,6 +73,8 @@ ASSUMPTIONS_BY_ENGINE = {
                  "response is fanned out to all merged senders by design, so exact equality of last_match is not demanded (DESIGN.md C36)",
                  "request sequences are those a correct set of leaders can emit (per term one leader with one log); network duplication and "
                  "loss of requests are included, corruption is not"],
+    "snapsim": ["one fault per stream; crash points inside the assembly/finalize steps are not injected here (engine-side install crashes: "
+                "C16 engine batch, KF17)", "state machine = MemSm; the File/RocksDB apply_snapshot_from_file are exercised by the C16 engine batch"],
     "scansim": ["interleavings happen at the guarded points only (after the WAL append / the memory update of the File engine, before / after the "
                 "RocksDB batch write, between iteration and revision read of the RocksDB scan), not between arbitrary instructions",
                 "watch events after the scan are modelled from the reference state (the watch pipeline itself is C24's subject)"],
@@ -123,6 +133,12 @@ PROPS = {
     "C16": {"batches": [B("exposed_snapshot", "snapshot", 120, 1200, masks=["batch_promote"]),
                         B("general_exposed", "general", 60, 600, masks=["batch_promote"]),
                         B("engine_install_replay", "c16", 250, 2500, engine="smsim")]},
+    "C17": {"engine": "snapsim", "batches": [B("snapshot_stream_faults", "stream", 1200, 12000, masks=[])],
+            "rule": "one evaluation = one real snapshot (real create_snapshot + load_snapshot_data of a leader-side handler, 1-40 commands, "
+                    "chunk size 16-200 bytes so that streams have several chunks) streamed into the real apply_snapshot_stream_from_leader of a "
+                    "follower-side handler that holds its own state and sometimes an older snapshot, with one injected stream fault (drop, "
+                    "duplicate, swap, corrupt data, corrupt checksum, leader id / term change mid-stream, missing metadata, early close, stall "
+                    "beyond receive_chunk_timeout, wrong total, abort followed by a complete retry) or none; non-trivial = a fault was injected"},
     "C18": {"engine": "logsim", "batches": [B("buffered_log_crash", "c18", 1500, 15000, masks=[])],
             "rule": "one evaluation = one generated operation plan (append / conflict-aware append from forking histories / purge / reset / "
                     "flush / wait / crash+reopen) on the real BufferedRaftLog with its IO task over SimStorageEngine; distinct = distinct "
